@@ -100,7 +100,7 @@ def table_distance(a, b):
     return np.array([dpos.max(), dv.max(), ROT.angle_between(Ca, Cb).max()])
 
 
-def sut_run(ctx, pva, P, T, h, stype, nout, t0=0.0):
+def sut_run(ctx, pva, P, T, h, stype, nout, t0=0.0, layout=0):
     from pyins import strapdown
     n = int(round(T / h))
     if stype == 'rate':
@@ -111,6 +111,11 @@ def sut_run(ctx, pva, P, T, h, stype, nout, t0=0.0):
         vals = N.sample_increment(t, h, P)     # row 0 = integral over [-h, 0]: the conventional "before" sample
     # the signals are functions of the time since the start of the record; the stamps carry the record's origin
     imu = pd.DataFrame(vals, index=pd.Index(t0 + t, name='time'), columns=COLS)
+    if layout == 1:        # the readings are a LABELLED table: accelerometer triad first
+        imu = imu[COLS[3:] + COLS[:3]]
+    elif layout == 2:      # an unrelated leading column, sensors interleaved
+        imu.insert(0, 'temperature', 21.5)
+        imu = imu[['temperature', 'gyro_x', 'accel_x', 'gyro_y', 'accel_y', 'gyro_z', 'accel_z']]
     inc = ctx.sut(strapdown.compute_increments_from_imu, imu, stype)
     tr = ctx.sut(strapdown.Integrator(pva).integrate, inc)
     ctx.check(len(tr) == n + 1, 'row_count', f'{len(tr)} vs {n + 1}')
@@ -158,7 +163,9 @@ def run_convergence(case, ctx):
     #   rule 1  err(h_k) <= 4 * max(change(h_k, h_k/2), change(h_k/2, h_k/4)) + floor
     #   rule 2  err(finest) <= 0.9 * max(err(coarser levels)) + floor      (two-term worst case: 0.875 with 3, 0.53 with 4 levels)
     nlev = 4 if T <= 300 else 3
-    runs = [sut_run(ctx, pva, P, T, h / 2 ** k, stype, nout, t0) for k in range(nlev)]
+    layout = case['sub'] % 4 if 't0' in case else 0          # (cases saved before the layouts existed replay as they ran)
+    ctx.label(f'imu_column_layout={layout if layout < 3 else 0}')
+    runs = [sut_run(ctx, pva, P, T, h / 2 ** k, stype, nout, t0, layout) for k in range(nlev)]
     ctx.check(all(np.all(np.isfinite(r.values)) for r in runs), 'not_finite', '')
     errs = [state_distance(r, ref2) for r in runs]
     chg = [table_distance(runs[k], runs[k + 1]) for k in range(nlev - 1)]
